@@ -562,6 +562,23 @@ theorem every_command_class_covered :
     (∀ cls ∈ Sb31Consts.cmdLeafClasses, ∃ cmd ∈ cmdKinds, cmd.className = cls) ∧
     (∀ cmd ∈ cmdKinds, (cmd.className, tagWord (encCmd cmd)) ∈ Sb31Consts.classTags ∧ cmd.wf = true) := by decide
 
+/-- constructor + `export()` of EVERY command class, executed from the source by the generator on marker arguments (every field a
+    distinct byte pattern, data that needs padding), is byte for byte what the model's encoder gives for the same arguments -/
+theorem command_exports_executed :
+    Sb31Consts.cmdSamples = sampleCmds.map (fun cmd => (cmd.className, encCmd cmd)) ∧
+    sampleCmds.map Cmd.className = Sb31Consts.cmdLeafClasses ∧ sampleCmds.all Cmd.wf = true := by decide
+
+/-- … hence the loader reads every executed export back as the constructor's arguments -/
+theorem executed_exports_parse_back :
+    ∀ p ∈ Sb31Consts.cmdSamples, ∃ cmd ∈ sampleCmds, cmd.className = p.1 ∧ parseCmd p.2 = .ok (cmd, []) := by
+  rw [command_exports_executed.1]
+  intro p hp
+  simp only [List.mem_map] at hp
+  obtain ⟨cmd, hm, rfl⟩ := hp
+  refine ⟨cmd, hm, rfl, ?_⟩
+  have hwf : cmd.wf = true := (List.all_eq_true.mp command_exports_executed.2.2) cmd hm
+  simpa using cmd31_roundtrip cmd hwf []
+
 /-- the tag word does not depend on the field values: every command exports the tag of its class -/
 theorem command_tag_of_class (cmd : Cmd) : (cmd.className, tagWord (encCmd cmd)) ∈ Sb31Consts.classTags := by
   cases cmd <;>
